@@ -2,8 +2,11 @@
 //! machinery to the correspondence harnesses under /verif; nothing here is compiled
 //! into ordinary builds.
 pub mod exec;
+#[cfg(feature = "onnx_format")]
 pub mod ops;
+#[cfg(feature = "onnx_format")]
 pub mod opt;
 pub mod planner;
 pub mod pool;
+#[cfg(feature = "onnx_format")]
 pub mod shapeinfer;
